@@ -421,11 +421,7 @@ func origContainer(c Case, id string) *api.Container {
 			}
 			if o.DevRules {
 				// device cgroup rules: part of the runtime's resources, no plugin can adjust them
-				ct.Linux.Resources.Devices = []*api.LinuxDeviceCgroup{
-					{Allow: false, Access: "rwm"},
-					{Allow: true, Type: "c", Major: &api.OptionalInt64{Value: 1}, Minor: &api.OptionalInt64{Value: 3}, Access: "rw"},
-					{Allow: true, Type: "b", Major: &api.OptionalInt64{Value: 8}, Access: "r"},
-				}
+				ct.Linux.Resources.Devices = devRules()
 			}
 		}
 		if o.Cgroups {
@@ -438,11 +434,22 @@ func origContainer(c Case, id string) *api.Container {
 	return ct
 }
 
+func devRules() []*api.LinuxDeviceCgroup {
+	return []*api.LinuxDeviceCgroup{
+		{Allow: false, Access: "rwm"},
+		{Allow: true, Type: "c", Major: &api.OptionalInt64{Value: 1}, Minor: &api.OptionalInt64{Value: 3}, Access: "rw"},
+		{Allow: true, Type: "b", Major: &api.OptionalInt64{Value: 8}, Access: "r"},
+	}
+}
+
 // reqResources renders the runtime's requested resources of an update request.
 func reqResources(c Case) *api.LinuxResources {
 	r := &api.LinuxResources{}
 	for _, f := range c.Req {
 		setResField(r, f, 0)
+	}
+	if c.ReqDevRules {
+		r.Devices = devRules()
 	}
 	return r
 }
